@@ -2,6 +2,8 @@
 """store_seed.py <Cxx> <sNN-slug> <round> <change> <needs>: copy a confirmed sub-agent change from /tmp/wt/<Cxx>-demo into seeded/."""
 import sys, os, shutil, json, subprocess
 cid, slug, rnd, change, needs = sys.argv[1:6]
+NOTES={4:"round 4: the author was asked for feature interactions and less-travelled entry points (re-used instances, flows with retry settings, unusual but legal values, state surviving between runs)",
+ 5:"round 5: the author was asked for value-dependent misbehaviour (numeric thresholds and overflow, floating-point corners, textual shape of strings, relations between values, one dynamic type among many)"}
 src='/tmp/wt/%s-demo'%cid; dst='/verif/seeded/'+slug
 os.makedirs(dst, exist_ok=True)
 for f in ('patch.diff','demo_test.go','README.txt'):
@@ -10,7 +12,7 @@ conf=subprocess.run(['sh','/verif/tools/confirm_seeded.sh',cid],capture_output=T
 c=json.loads(conf)
 assert c=={"suite_with_change_exit": 0, "demo_with_change_exit": 1, "demo_without_change_exit": 0}, c
 base=subprocess.run(['git','-C','/repo','rev-parse','--short','HEAD'],capture_output=True,text=True).stdout.strip()
-meta={"id":slug,"round":int(rnd),"note":"round 4: the author was asked for feature interactions and less-travelled entry points (re-used instances, flows with retry settings, unusual but legal values, state surviving between runs)",
+meta={"id":slug,"round":int(rnd),"note":NOTES.get(int(rnd),""),
  "breaks_property":cid,"change":change,"needs_to_manifest":needs,"base_commit":base,
  "confirmed":{"suite_with_change":"pass (go test -vet=off -count=1 .)","demo_with_change":"FAIL","demo_without_change":"pass","how":"tools/confirm_seeded.sh in the scratch worktree /tmp/wt/"+cid},
  "checks":"MISSED at first run",
